@@ -78,6 +78,12 @@ def check_key(ctx, case):
                 fail("vk-roundtrip-differs/%s" % what)
             elif vk2.verify(sig0, msg, hashfunc=hashlib.sha256, sigdecode=sigdecode_der) is not True:
                 fail("vk-roundtrip-does-not-verify/%s" % what)
+            else:
+                # the reloaded key must be as usable as the original: table precomputation, then verify
+                vk2.precompute(lazy=(dd % 2 == 0))
+                if vk2.verify(sig0, msg, hashfunc=hashlib.sha256, sigdecode=sigdecode_der) is not True \
+                        or vk2.to_string() != vk.to_string():
+                    fail("vk-roundtrip-breaks-after-precompute/%s" % what)
         except Exception as e:
             fail("vk-roundtrip-exception/%s/%s" % (what, exc_sig(e)), repr(e))
 
